@@ -61,6 +61,8 @@ var contracts = map[string]*Contract{
 	"(*" + pEtree + ".Element).CreateAttr":     {TreeMutator: true, NonNil: []int{0}, Note: "attribute value escaped on serialisation; key emitted verbatim"},
 	"(*" + pEtree + ".Element).CreateElement":  {TreeMutator: true, NonNil: []int{0}, Note: "tag emitted verbatim"},
 	"(*" + pEtree + ".Element).SetText":        {TreeMutator: true, Note: "text escaped on serialisation"},
+	pEtree + ".NewElement":                     {NonNil: []int{0}, Fresh: true, Note: "detached element; \"prefix:local\" is split into Space and Tag"},
+	"(*" + pEtree + ".Element).CreateText":     {TreeMutator: true, NonNil: []int{0}, Note: "appends escaped character data"},
 	pEtree + ".NewDocument":                    {Fresh: true, NonNil: []int{0}, Note: "fresh empty document"},
 	"(*" + pEtree + ".Document).SetRoot":       {TreeMutator: true, Note: "replaces the root"},
 	"(*" + pEtree + ".Document).ReadFromBytes": {TreeMutator: true, Note: "total: error or success"},
